@@ -75,6 +75,7 @@ def fundingStep (s : State) (ws : List String) : State × String :=
     | some k => (s.lag k, "ok")
     | none => (s, "bad-op")
   | ["sync"] => (s.sync, "ok")
+  | ["stale"] => (s.stale, "ok")
   | ["tick", d] => match nat? d with
     | some d => (s.tick d, "ok")
     | none => (s, "bad-op")
